@@ -86,7 +86,7 @@ def run_history(args):
         poll_reader = None
         cands = candidates(cfg)
         poll_lo, poll_hi = max(cands[0] - 1, 0), cands[-1] + 10
-        for form, ks in hist:
+        for hi_, (form, ks) in enumerate(hist):
             part["transitions"] += 1
             if form in ("dup", "dupbatch"):
                 before = {k: md.canon_val(v) for k, v in model.samples.items()}
@@ -110,14 +110,25 @@ def run_history(args):
                     # whatever the implementation did with it is outside the statement, so stop this history here
                     break
                 continue
+            ncall = sum(1 for f_, _ in hist[:hi_] if f_ not in ("dup", "dupbatch"))
             if form == "dict":
                 data, exp = md.dict_form(ks)
+                if ncall:
+                    # field names (top level and nested) that the channel's first write did not have
+                    data = dict(data, added_later=[100 * ncall + i_ for i_ in range(len(ks))], late={"q": "call%d" % ncall})
+                    exp = [md.distribute(data, i_, len(ks)) for i_ in range(len(ks))]
                 w.write(ks, data)
             elif form == "list":
                 data, exp = md.list_form(ks)
+                if ncall:
+                    data = [dict(v_, added_later=100 * ncall + i_, late={"q": "call%d" % ncall}) for i_, v_ in enumerate(data)]
+                    exp = data
                 w.write(ks, data)
             else:
                 data, exp = md.list_form(ks)
+                if ncall:
+                    data = [dict(v_, added_later=100 * ncall + i_, late={"q": "call%d" % ncall}) for i_, v_ in enumerate(data)]
+                    exp = data
                 w.write(ks[0], data[0])
             for k, v in zip(ks, exp):
                 model.samples[k] = v
